@@ -59,6 +59,14 @@ Theorem C08_no_needless_hold : forall c est0 evs, ns_wf c ->
 Proof. exact ns_no_needless_hold. Qed.
 Print Assumptions C08_no_needless_hold.
 
+(* none lost, the progress side: when every in-flight exchange of an established session has
+   finished (acknowledged, reset, given up, cancelled) nothing is left waiting *)
+Theorem C08_drained_when_idle : forall c est0 evs, ns_wf c -> 1 <= ns_nstart c ->
+  let s := ns_run c (ns_init est0) evs in
+  ns_est s = true -> ns_sq s = [] -> ns_dq s = [].
+Proof. exact ns_drained_when_idle. Qed.
+Print Assumptions C08_drained_when_idle.
+
 (* a NON submitted on an established session is transmitted inside coap_send (any state) *)
 Theorem C08_non_not_delayed : forall c s m,
   ns_open s = true -> ns_est s = true -> ns_con m = false ->
@@ -99,6 +107,15 @@ Theorem C08_checker_sound_bound : forall c, 0 <= ns_nstart c -> forall t m m',
   ns_mon_run c m t = Some m' -> Z.of_nat (length (ns_minfl m')) <= ns_nstart c.
 Proof. exact ns_accepts_bound. Qed.
 Print Assumptions C08_checker_sound_bound.
+
+(* ... and, as long as the session is not disconnected, the first transmissions outside their
+   own coap_send happen in the order in which the messages were held, each held message at most
+   once and none skipped: held so far = released so far ++ still pending *)
+Theorem C08_checker_sound_fifo : forall c t m m', ns_mopen m = true -> ns_no_disconnect t ->
+  ns_mon_run c m t = Some m' ->
+  ns_mpend m ++ ns_held t = flat_map ns_rel_tx t ++ ns_mpend m' /\ ns_mopen m' = true.
+Proof. exact ns_accepts_fifo. Qed.
+Print Assumptions C08_checker_sound_fifo.
 
 (* the hypotheses are satisfiable by a non-trivial history *)
 Theorem C08_example :
@@ -183,6 +200,22 @@ Theorem C08_found_write_failure_refuted :
     nsb_run ns_cfg_found [] t 0 = Some 3.
 Proof. exact nsf_bound_refuted_found. Qed.
 Print Assumptions C08_found_write_failure_refuted.
+
+(* The code as found, server side: the leisure timer of a delayed multicast response released an
+   NSTART slot (coap_retransmit did con_active-- for every node) and flushed the delay queue: with
+   CON 1 in flight and CON 2 held (NSTART = 1) CON 2 goes out.  Repaired (/repo 6ed059d) the event
+   is the flush of an established session ([NsUp]), which does nothing in that state.  Replayed on
+   the real code: corpus/C08/fixed.case (ops M = multicast request, Y = its response goes out). *)
+Theorem C08_found_mcast_refuted :
+  let c := ns_mkcfg 1 4 true false false in
+  let s := ns_run c (ns_init true) [NsSubmit (ns_mkmsg true 1 11); NsSubmit (ns_mkmsg true 2 12)] in
+  map ns_nmid (ns_sq s) = [1] /\ map ns_nmid (ns_dq s) = [2] /\
+  snd (ns_mcast_found c s) = [NsTx (ns_mkmsg true 2 12)] /\
+  map ns_nmid (ns_sq (fst (ns_mcast_found c s))) = [1; 2] /\
+  Z.of_nat (length (ns_sq (fst (ns_mcast_found c s)))) > ns_nstart c /\
+  ns_step (ns_mkcfg 1 4 true true false) s NsUp = (s, []).
+Proof. exact ns_mcast_refuted_found. Qed.
+Print Assumptions C08_found_mcast_refuted.
 
 (* The code as found (pinned commit, ns_fixed = false): the RST branch of coap_dispatch
    decremented con_active before it looked the message id up.  A peer that resets a NON it
